@@ -36,7 +36,7 @@ Print Assumptions C17_no_repeat.
 (* ... every other message is the one of the executor task just run: the same-host retry, the PREPARE after UNPREPARED,
    or the re-send after PREPARED (C19) ... *)
 Theorem C17_other_sends_are_tasks : forall c s o s' ev h m cz, step c s o = (s', ev) -> In (Sent h m cz) ev ->
-  cz = CPlan \/ exists k t, o = Run k /\ nth_error (queue s) k = Some t /\ task_sends s t h m cz
+  plan_msg m cz \/ exists k t, o = Run k /\ nth_error (queue s) k = Some t /\ task_sends s t h m cz
                             /\ pool_of s (task_host t) = PHealthy.
 Proof. exact step_sent. Qed.
 Print Assumptions C17_other_sends_are_tasks.
